@@ -9,6 +9,12 @@ type nat =
 | O
 | S of nat
 
+(** val option_map : ('a1 -> 'a2) -> 'a1 option -> 'a2 option **)
+
+let option_map f = function
+| Some a -> Some (f a)
+| None -> None
+
 (** val fst : ('a1 * 'a2) -> 'a1 **)
 
 let fst = function
@@ -2507,6 +2513,74 @@ let rec truncate k s =
              | [] -> []
              | c::r -> c::(truncate k' r))
 
+(** val parse_nat_acc : char list -> z -> z option **)
+
+let rec parse_nat_acc s acc =
+  match s with
+  | [] -> Some acc
+  | c::r ->
+    let n0 = nat_of_ascii c in
+    if (&&)
+         (Nat.leb (S (S (S (S (S (S (S (S (S (S (S (S (S (S (S (S (S (S (S (S
+           (S (S (S (S (S (S (S (S (S (S (S (S (S (S (S (S (S (S (S (S (S (S
+           (S (S (S (S (S (S
+           O)))))))))))))))))))))))))))))))))))))))))))))))) n0)
+         (Nat.leb n0 (S (S (S (S (S (S (S (S (S (S (S (S (S (S (S (S (S (S (S
+           (S (S (S (S (S (S (S (S (S (S (S (S (S (S (S (S (S (S (S (S (S (S
+           (S (S (S (S (S (S (S (S (S (S (S (S (S (S (S (S
+           O))))))))))))))))))))))))))))))))))))))))))))))))))))))))))
+    then parse_nat_acc r
+           (Z.add (Z.mul (Zpos (XO (XI (XO XH)))) acc)
+             (Z.of_nat
+               (sub n0 (S (S (S (S (S (S (S (S (S (S (S (S (S (S (S (S (S (S
+                 (S (S (S (S (S (S (S (S (S (S (S (S (S (S (S (S (S (S (S (S
+                 (S (S (S (S (S (S (S (S (S (S
+                 O)))))))))))))))))))))))))))))))))))))))))))))))))))
+    else None
+
+(** val parse_nat : char list -> z option **)
+
+let parse_nat s = match s with
+| [] -> None
+| _::_ -> parse_nat_acc s Z0
+
+(** val split_dot : char list -> char list * char list option **)
+
+let rec split_dot = function
+| [] -> ([], None)
+| c::r ->
+  if (=) c '.'
+  then ([], (Some r))
+  else let (a, f) = split_dot r in ((c::a), f)
+
+(** val parse_signed : (char list -> z option) -> char list -> z option **)
+
+let parse_signed f s = match s with
+| [] -> None
+| c::r -> if (=) c '-' then option_map Z.opp (f r) else f s
+
+(** val parse_int : char list -> z option **)
+
+let parse_int s =
+  parse_signed parse_nat s
+
+(** val parse_half : char list -> z option **)
+
+let parse_half s =
+  parse_signed (fun b ->
+    let (a, f) = split_dot b in
+    (match parse_nat a with
+     | Some n0 ->
+       (match f with
+        | Some fr ->
+          if eqb0 fr ('0'::[])
+          then Some (Z.mul (Zpos (XO XH)) n0)
+          else if eqb0 fr ('5'::[])
+               then Some (Z.add (Z.mul (Zpos (XO XH)) n0) (Zpos XH))
+               else None
+        | None -> Some (Z.mul (Zpos (XO XH)) n0))
+     | None -> None)) s
+
 (** val np_cast : bool -> dtype -> pyval -> pyval outcome **)
 
 let np_cast py d v =
@@ -2516,7 +2590,17 @@ let np_cast py d v =
      | PInt z0 -> Ret (PFlt (FHalf (Z.mul (Zpos (XO XH)) z0)))
      | PFlt f -> Ret (PFlt f)
      | PBool b -> Ret (PFlt (FHalf (if b then Zpos (XO XH) else Z0)))
-     | PStr _ -> Raise ValueError
+     | PStr x ->
+       (match parse_half x with
+        | Some z0 -> Ret (PFlt (FHalf z0))
+        | None ->
+          if eqb0 x ('n'::('a'::('n'::[])))
+          then Ret (PFlt FNaN)
+          else if eqb0 x ('i'::('n'::('f'::[])))
+               then Ret (PFlt FPInf)
+               else if eqb0 x ('-'::('i'::('n'::('f'::[]))))
+                    then Ret (PFlt FNInf)
+                    else Raise ValueError)
      | PNone -> Ret (PFlt FNaN))
   | DInt ->
     (match v with
@@ -2527,7 +2611,10 @@ let np_cast py d v =
         | FNaN -> if py then Raise ValueError else Ret (PInt iNT_MIN)
         | _ -> if py then Raise OverflowError else Ret (PInt iNT_MIN))
      | PBool b -> Ret (PInt (if b then Zpos XH else Z0))
-     | PStr _ -> Raise ValueError
+     | PStr x ->
+       (match parse_int x with
+        | Some z0 -> Ret (PInt z0)
+        | None -> Raise ValueError)
      | PNone -> Raise TypeError)
   | DBool -> Ret (PBool (truthy_val v))
   | DStr k -> Ret (PStr (truncate k (str_of_val v)))
